@@ -24,6 +24,7 @@ import (
 	"strings"
 	"sync"
 
+	"github.com/gorilla/websocket"
 	goahttp "goa.design/goa/v3/http"
 	goa "goa.design/goa/v3/pkg"
 
@@ -128,6 +129,8 @@ type Case struct {
 	// Socket I/O makes the race detector order every write before every later
 	// read in the process, which hides races between in-process requests.
 	InMemory bool `json:"in_memory,omitempty"`
+	// Stream scripts a call of a streaming method (websocket over HTTP, gRPC streams).
+	Stream *StreamSpec `json:"stream,omitempty"`
 }
 
 // StubSpec tells the stub service what to do.
@@ -256,6 +259,9 @@ type Obs struct {
 	HadRespBody     bool   `json:"had_resp_body,omitempty"`
 	ResultBody      []byte `json:"result_body,omitempty"`
 	ResultBodyErr   string `json:"result_body_err,omitempty"`
+	// streaming methods: what each end of the stream saw
+	ServerStream *StreamObs `json:"server_stream,omitempty"`
+	ClientStream *StreamObs `json:"client_stream,omitempty"`
 }
 
 type caseState struct {
@@ -265,6 +271,14 @@ type caseState struct {
 	inmem bool
 	// mu orders the accesses of the client-side and server-side goroutines of one case
 	mu sync.Mutex
+	// smu guards the stream observations: both ends of a stream run at the
+	// same time, the server end inside the stub while the client end drives
+	// the generated client stream
+	smu          sync.Mutex
+	serverStream StreamObs
+	clientStream StreamObs
+	// server-side handlers (HTTP requests, gRPC streams) of this case that started / returned
+	started, finished int
 }
 
 // Main runs the protocol loop.
@@ -385,6 +399,16 @@ func (h *H) countingHandler(next http.Handler) http.Handler {
 		if cs == nil {
 			cs = h.state(nil)
 		}
+		if cs != nil {
+			cs.smu.Lock()
+			cs.started++
+			cs.smu.Unlock()
+			defer func() {
+				cs.smu.Lock()
+				cs.finished++
+				cs.smu.Unlock()
+			}()
+		}
 		defer func() {
 			if rec := recover(); rec != nil {
 				if cs != nil {
@@ -451,6 +475,10 @@ func (h *H) buildArgs(ft reflect.Type, m *mounted, base *url.URL) ([]reflect.Val
 			args = append(args, reflect.Zero(pt))
 		case pt == tDoer:
 			args = append(args, reflect.ValueOf(goahttp.Doer(&tap{h: h})).Convert(pt))
+		case pt == tUpgrader:
+			args = append(args, reflect.ValueOf(goahttp.Upgrader(&websocket.Upgrader{})).Convert(pt))
+		case pt == tDialer:
+			args = append(args, reflect.ValueOf(goahttp.Dialer(&tapDialer{h: h})).Convert(pt))
 		case pt.Kind() == reflect.String:
 			if strs == 0 {
 				args = append(args, reflect.ValueOf(base.Scheme))
@@ -778,7 +806,18 @@ func (h *H) call(cs *caseState) {
 		}
 		payload = rd.Interface()
 	}
-	res, cerr := ep(context.WithValue(context.Background(), ctxKey, cs), payload)
+	cctx, cancel := context.WithCancel(context.WithValue(context.Background(), ctxKey, cs))
+	defer cancel()
+	res, cerr := ep(cctx, payload)
+	if sm, ok := streamOf(res); ok && cerr == nil {
+		if c.Stream == nil {
+			c.Stream = &StreamSpec{}
+		}
+		res, cerr = h.driveClientStream(cs, m.def, sm)
+		// a hijacked connection or a half-closed gRPC stream does not order the
+		// end of the server-side handler before the end of the client call
+		cs.waitHandlers(c.Stream.timeout())
+	}
 	// methods that stream the response body return <Method>ResponseData{Result, Body}
 	var respBody []byte
 	hadRespBody, respBodyErr := false, ""
@@ -810,6 +849,16 @@ func (h *H) call(cs *caseState) {
 	cs.mu.Lock()
 	defer cs.mu.Unlock()
 	cs.obs.HadRespBody, cs.obs.ResultBody, cs.obs.ResultBodyErr = hadRespBody, respBody, respBodyErr
+	cs.smu.Lock()
+	if cs.serverStream.Ran {
+		so := cs.serverStream
+		cs.obs.ServerStream = &so
+	}
+	if cs.clientStream.Ran || cs.clientStream.Dial != nil {
+		co := cs.clientStream
+		cs.obs.ClientStream = &co
+	}
+	cs.smu.Unlock()
 	if cerr != nil {
 		cs.obs.ClientErr = observeErr(cerr)
 	} else if res != nil {
@@ -972,7 +1021,8 @@ func (h *H) Invoke(svc, method string, ctx context.Context, args []any, results 
 	}
 	if len(args) > 0 && args[0] != nil {
 		rv := reflect.ValueOf(args[0])
-		if _, isBody := args[0].(io.ReadCloser); !isBody && !(rv.Kind() == reflect.Interface) {
+		_, isStream := streamOf(args[0])
+		if _, isBody := args[0].(io.ReadCloser); !isBody && !isStream && !(rv.Kind() == reflect.Interface) {
 			cs.obs.HadPayload = true
 			cs.obs.Received = ToV(rv)
 		}
@@ -981,6 +1031,23 @@ func (h *H) Invoke(svc, method string, ctx context.Context, args []any, results 
 	if spec.Error != nil {
 		out[len(out)-1] = buildError(spec.Error, h.defs[svc])
 		return out
+	}
+	for _, a := range args {
+		if sm, ok := streamOf(a); ok {
+			// the client end runs concurrently and finishes under cs.mu: give it up while streaming
+			cs.mu.Unlock()
+			err := h.serveStream(cs, h.defs[svc], sm, func(rt reflect.Type) (reflect.Value, error) {
+				if !spec.HasResult {
+					return reflect.Zero(rt), nil
+				}
+				return FromV(spec.Result, rt, h.defs[svc])
+			})
+			cs.mu.Lock()
+			if err != nil {
+				out[len(out)-1] = err
+			}
+			return out
+		}
 	}
 	for i, rt := range results {
 		switch {
